@@ -3,7 +3,18 @@ check('C15', 'proof',
       'truncation.truncate: suffix-of-sorted-spectrum threshold, priority of chi_max/chi_min/degeneracy/svd_min/trunc_cut, '
       'exact error/norm accounting, permutation invariance; _combine_constraints is regenerated from source and proved equal '
       'to the model; the model is run (vm_compute) against the implementation on thousands of generated spectra x options; '
-      'svd_theta/eigh_rho reconstruction error is compared with the reported error on random block-sparse matrices.',
+      'svd_theta/eigh_rho reconstruction error is compared with the reported error on random block-sparse matrices. '
+      'T15_priority_general: final_good of the model equals the documented priority sets A_final (A_k = A_(k-1) and G_k if non-empty else A_(k-1), '
+      'five constraints in code order, Model/TruncPriority.v) pointwise and cut = min A_final (all spectra/options; T15_priority_stage, '
+      'T15_priority_sets_meaning give the per-stage law and the meaning of G_k for sane option values). '
+      'T15_svd_theta_bookkeeping / _truncate / _sq and T15_eigh_rho_bookkeeping / _truncate / _z (Model/TruncBook.v, exact rationals, '
+      'the two square roots r, new_norm are universally quantified inputs constrained by their squares): S_new_i*renormalization = S_old_i on kept '
+      'indices, sum S_new^2 = 1, eps = discarded/total weight = r_eps/(total) of the truncate model, renormalization^2 = kept weight; '
+      'eigh_rho: sum W_new = trace, W_new_i*(1-eps) = W_old_i; T15_err_add: eps of err_1+...+err_k is the sum (ov the product) for every list, '
+      'T15_err_from_norm(_1): from_norm(new, old) = from_S(discarded, old) when old^2 = new^2 + discarded weight. '
+      'The squares-only variants svd_book_sq / eigh_book_z and te_* are compared with svd_theta / eigh_rho (planted integer spectra, possibly rotated, '
+      'mask observed by a pass-through wrapper of truncate, tolerance 1e-9) and with TruncationError (exact, dyadic inputs) in streams book / err-exact; '
+      'svd_theta_book / eigh_rho_book (roots as inputs) are tied to the code by reading only.',
       'Trusted: Coq kernel+VM, translator, harness generators; spectra modelled as integers (dyadic rationals), float rounding of '
       'log/norm not modelled (generators keep decisions robust); LAPACK results are oracle-checked only; decompose_theta_qr_based not covered yet.',
       'Coq proof over all inputs + regenerated/translated source + differential correspondence', '5.C15')
